@@ -121,6 +121,7 @@ func (r *weightsRunner) execute(cmd *cobra.Command, args []string) error {
 	j.Days(partition.EndDates())
 	rep := weights.NewReport()
 	err = j.Build().Process(
+		journal.Sort(),
 		journal.ComputePrices(valuation),
 		check.Check(),
 		journal.Valuate(reg, valuation),
